@@ -56,14 +56,14 @@ Definition canon_prim (ls : lenstyle) (e : Encoding.enc) (p : prim) (tag : optio
   if bytes_empty p v then None else             (* written as nothing at all: reads back as "absent" *)
     match prim_enc e p v with
     | Ok pl =>
-        match framed_enc ls false tag pl with
+        match framed_enc_p ls p tag pl with
         | Ok g =>
             if tag_ok_b tag &&
                ((delimiting ls && len_fits ls (blen pl) && ok_is (prim_dec e p pl) v [])
                 || (match ls with LEmpty => int_strict e p v | _ => false end)
                 || bcd_fixed ls e p v
                 || (match ls with
-                    | LFixed k => (blen pl <=? k) && ok_is (prim_dec e p (zeros (k - blen pl) ++ pl)) v []
+                    | LFixed k => (blen pl <=? k) && ok_is (prim_dec e p (pad_payload p k pl)) v []
                     | _ => false
                     end)
                 || (match ctx with
